@@ -171,90 +171,220 @@ Proof. intros A l i k H Hk. destruct (go_index_some l i H) as [x ->]. apply Hk. 
 (* ------------------------------------------------------------------------------------------------ *)
 (* the bodies *)
 
+Lemma word_finish_ok : forall t index delims, word_finish wclass t index delims <> Panic.
+Proof.
+  intros t index delims. unfold word_finish. cbv zeta.
+  destruct (negb _) eqn:E; [discriminate|]. apply negb_false_iff in E.
+  apply andb_prop in E as [E1 E2]. apply Z.leb_le in E1. apply Z.ltb_lt in E2.
+  apply guarded_index; [lia|]. discriminate.
+Qed.
+
 Lemma word_body_ok : forall t r, (1 <= length r <= 2)%nat -> word_body wclass t r <> Panic.
 Proof.
   intros t r Hr. unfold word_body.
-  apply with_arg_ok; [lia|]. intros a0. destruct (to_integer a0) as [index|]; [|discriminate].
-  assert (Hc : forall delims,
-    (let words := extract_words wclass t delims in
-     let offset := if index <? 0 then index + zlen words else index in
-     if negb ((0 <=? offset) && (offset <? zlen words)) then Ret VErr
-     else match go_index words offset with Some w => Ret (VText w) | None => Panic end) <> Panic).
-  { intros delims. cbv zeta.
-    destruct (negb _) eqn:E; [discriminate|]. apply negb_false_iff in E.
-    apply andb_prop in E as [E1 E2]. apply Z.leb_le in E1. apply Z.ltb_lt in E2.
-    apply guarded_index; [lia|]. discriminate. }
-  destruct (Nat.eqb (length r) 2) eqn:E2.
-  - apply Nat.eqb_eq in E2. apply with_arg_ok; [lia|]. intros a1.
-    destruct (is_nil a1); [apply Hc|]. destruct (to_text a1); [apply Hc|discriminate].
-  - apply Hc.
+  apply with_arg_ok; [lia|]. intros va0. destruct (to_integer va0) as [index|]; [|discriminate].
+  destruct (Nat.eqb (length r) 2) eqn:E2; [|apply word_finish_ok].
+  apply Nat.eqb_eq in E2. apply with_arg_ok; [lia|]. intros va1.
+  destruct (is_nil va1); [apply word_finish_ok|]. destruct (to_text va1); [apply word_finish_ok|discriminate].
+Qed.
+
+Lemma word_slice_finish_ok : forall t start end_ delims,
+  0 <= start -> (0 <? end_) && (end_ <=? start) = false ->
+  word_slice_finish wclass t start end_ delims <> Panic.
+Proof.
+  intros t start end_ delims Es Hg. unfold word_slice_finish. cbv zeta.
+  set (words := extract_words wclass t delims).
+  destruct (zlen words <=? start) eqn:E1; [discriminate|]. apply Z.leb_gt in E1.
+  destruct (zlen words <=? end_) eqn:E2.
+  - apply Z.leb_le in E2. destruct (0 <? zlen words) eqn:E3.
+    + destruct (go_slice_some words start (zlen words)) as [s ->]; [lia|lia|discriminate].
+    + destruct (go_slice_from_some words start) as [s ->]; [lia|discriminate].
+  - apply Z.leb_gt in E2. destruct (0 <? end_) eqn:E3.
+    + simpl in Hg. apply Z.leb_gt in Hg. apply Z.ltb_lt in E3.
+      destruct (go_slice_some words start end_) as [s ->]; [lia|lia|discriminate].
+    + destruct (go_slice_from_some words start) as [s ->]; [lia|discriminate].
+Qed.
+
+Lemma word_slice_after_end_ok : forall t r start end_,
+  0 <= start -> word_slice_after_end wclass t r start end_ <> Panic.
+Proof.
+  intros t r start end_ Es. unfold word_slice_after_end.
+  destruct ((0 <? end_) && (end_ <=? start)) eqn:Hg; [discriminate|].
+  destruct (Nat.leb 3 (length r)) eqn:E3; [|apply word_slice_finish_ok; assumption].
+  apply Nat.leb_le in E3. apply with_arg_ok; [lia|]. intros va2.
+  destruct (is_nil va2); [apply word_slice_finish_ok; assumption|].
+  destruct (to_text va2) as [d|]; [apply word_slice_finish_ok; assumption|discriminate].
 Qed.
 
 Lemma word_slice_body_ok : forall t r, (1 <= length r <= 3)%nat -> word_slice_body wclass t r <> Panic.
 Proof.
   intros t r Hr. unfold word_slice_body.
-  apply with_arg_ok; [lia|]. intros a0. destruct (to_integer a0) as [start|]; [|discriminate].
+  apply with_arg_ok; [lia|]. intros va0. destruct (to_integer va0) as [start|]; [|discriminate].
   destruct (start <? 0) eqn:Es; [discriminate|]. apply Z.ltb_ge in Es.
-  assert (H2 : forall end_ delims, (0 <? end_) && (end_ <=? start) = false ->
-    (let words := extract_words wclass t delims in
-     if zlen words <=? start then Ret (VText []) else
-     let end_ := if zlen words <=? end_ then zlen words else end_ in
-     if 0 <? end_ then
-       match go_slice words start end_ with Some ws => Ret (VText (join_sp ws)) | None => Panic end
-     else
-       match go_slice_from words start with Some ws => Ret (VText (join_sp ws)) | None => Panic end) <> Panic).
-  { intros end_ delims Hg. cbv zeta.
-    destruct (zlen _ <=? start) eqn:E1; [discriminate|]. apply Z.leb_gt in E1.
-    set (words := extract_words wclass t delims) in *.
-    destruct (zlen words <=? end_) eqn:E2.
-    - apply Z.leb_le in E2. destruct (0 <? zlen words) eqn:E3.
-      + destruct (go_slice_some words start (zlen words)) as [s ->]; [lia|lia|discriminate].
-      + destruct (go_slice_from_some words start) as [s ->]; [lia|discriminate].
-    - apply Z.leb_gt in E2. destruct (0 <? end_) eqn:E3.
-      + apply Z.ltb_lt in E3. simpl in Hg. rewrite E3 in Hg. simpl in Hg. apply Z.leb_gt in Hg.
-        destruct (go_slice_some words start end_) as [s ->]; [lia|lia|discriminate].
-      + destruct (go_slice_from_some words start) as [s ->]; [lia|discriminate]. }
-  assert (H1 : forall end_,
-    (if (0 <? end_) && (end_ <=? start) then Ret VErr else
-     if Nat.leb 3 (length r) then
-       with_arg r 2 (fun a2 => if is_nil a2 then
-           (fun (end_ : Z) (delims : text) =>
-             let words := extract_words wclass t delims in
-             if zlen words <=? start then Ret (VText []) else
-             let end_ := if zlen words <=? end_ then zlen words else end_ in
-             if 0 <? end_ then
-               match go_slice words start end_ with Some ws => Ret (VText (join_sp ws)) | None => Panic end
-             else
-               match go_slice_from words start with Some ws => Ret (VText (join_sp ws)) | None => Panic end) end_ []
-         else match to_text a2 with
-              | Ok d => (fun (end_ : Z) (delims : text) =>
-                 let words := extract_words wclass t delims in
-                 if zlen words <=? start then Ret (VText []) else
-                 let end_ := if zlen words <=? end_ then zlen words else end_ in
-                 if 0 <? end_ then
-                   match go_slice words start end_ with Some ws => Ret (VText (join_sp ws)) | None => Panic end
-                 else
-                   match go_slice_from words start with Some ws => Ret (VText (join_sp ws)) | None => Panic end) end_ d
-              | Bad => Ret VErr
-              end)
-     else (fun (end_ : Z) (delims : text) =>
-             let words := extract_words wclass t delims in
-             if zlen words <=? start then Ret (VText []) else
-             let end_ := if zlen words <=? end_ then zlen words else end_ in
-             if 0 <? end_ then
-               match go_slice words start end_ with Some ws => Ret (VText (join_sp ws)) | None => Panic end
-             else
-               match go_slice_from words start with Some ws => Ret (VText (join_sp ws)) | None => Panic end) end_ []) <> Panic).
-  { intros end_. destruct ((0 <? end_) && (end_ <=? start)) eqn:Hg; [discriminate|].
-    destruct (Nat.leb 3 (length r)) eqn:E3.
-    - apply Nat.leb_le in E3. apply with_arg_ok; [lia|]. intros a2.
-      destruct (is_nil a2); [apply (H2 end_ [] Hg)|].
-      destruct (to_text a2) as [d|]; [apply (H2 end_ d Hg)|discriminate].
-    - apply (H2 end_ [] Hg). }
-  destruct (Nat.leb 2 (length r)) eqn:E2.
-  - apply Nat.leb_le in E2. apply with_arg_ok; [lia|]. intros a1.
-    destruct (to_integer a1) as [e|]; [apply H1|discriminate].
-  - apply H1.
+  destruct (Nat.leb 2 (length r)) eqn:E2; [|apply word_slice_after_end_ok; assumption].
+  apply Nat.leb_le in E2. apply with_arg_ok; [lia|]. intros va1.
+  destruct (to_integer va1) as [e|]; [apply word_slice_after_end_ok; assumption|discriminate].
+Qed.
+
+Lemma field_body_ok : forall t r, length r = 2%nat -> field_body t r <> Panic.
+Proof.
+  intros t r Hr. unfold field_body.
+  apply with_arg_ok; [lia|]. intros va0. destruct (to_integer va0) as [field|]; [|discriminate].
+  destruct (field <? 0) eqn:Ef; [discriminate|]. apply Z.ltb_ge in Ef.
+  apply with_arg_ok; [lia|]. intros va1. destruct (to_text va1) as [sep|]; [|discriminate].
+  cbv zeta.
+  match goal with |- (if zlen ?l <=? field then _ else _) <> Panic => set (fields := l) end.
+  destruct (zlen fields <=? field) eqn:E; [discriminate|]. apply Z.leb_gt in E.
+  apply guarded_index; [lia|]. discriminate.
+Qed.
+
+Lemma text_slice_body_ok : forall t r, (1 <= length r <= 3)%nat -> text_slice_body t r <> Panic.
+Proof.
+  intros t r Hr. unfold text_slice_body. cbv zeta.
+  apply with_arg_ok; [lia|]. intros va0. destruct (to_integer va0) as [start|]; [|discriminate].
+  destruct (Nat.eqb (length r) 2) eqn:E2; [|discriminate].
+  apply Nat.eqb_eq in E2. apply with_arg_ok; [lia|]. intros va1.
+  destruct (to_integer va1); discriminate.
+Qed.
+
+Lemma char_body_ok : forall d, char_body d <> Panic.
+Proof. intros d. unfold char_body. destruct (to_integer (VNum d)); discriminate. Qed.
+
+Lemma repeat_body_ok : forall t n, repeat_body t n <> Panic.
+Proof. intros t n. unfold repeat_body. destruct (n <? 0); [discriminate|]. destruct t; discriminate. Qed.
+
+Lemma replace_body_ok : forall args, (3 <= length args <= 4)%nat -> replace_body args <> Panic.
+Proof.
+  intros args H. unfold replace_body.
+  apply with_arg_ok; [lia|]. intros va0. destruct (to_text va0); [|discriminate].
+  apply with_arg_ok; [lia|]. intros va1. destruct (to_text va1); [|discriminate].
+  apply with_arg_ok; [lia|]. intros va2. destruct (to_text va2); [|discriminate].
+  destruct (Nat.eqb (length args) 4) eqn:E; [|discriminate].
+  apply Nat.eqb_eq in E. apply with_arg_ok; [lia|]. intros va3. destruct (to_integer va3); discriminate.
+Qed.
+
+Lemma round_body_ok : forall d n, round_body d n <> Panic.
+Proof. intros. unfold round_body. destruct (bad_places n); discriminate. Qed.
+Lemma round_up_body_ok : forall d n, round_up_body d n <> Panic.
+Proof. intros. unfold round_up_body. destruct (bad_places n); [discriminate|]. destruct (dec_eqb _ _); discriminate. Qed.
+Lemma round_down_body_ok : forall d n, round_down_body d n <> Panic.
+Proof. intros. unfold round_down_body. destruct (bad_places n); [discriminate|]. destruct (dec_eqb _ _); discriminate. Qed.
+
+Lemma format_number_body_ok : forall args, (1 <= length args <= 3)%nat -> format_number_body args <> Panic.
+Proof.
+  intros args H. unfold format_number_body.
+  assert (Hf : forall num places, format_number_finish args num places <> Panic).
+  { intros num places. unfold format_number_finish. destruct (Nat.ltb 2 (length args)) eqn:E; [|discriminate].
+    apply Nat.ltb_lt in E. apply with_arg_ok; [lia|]. intros va2. destruct (to_bool va2); discriminate. }
+  apply with_arg_ok; [lia|]. intros va0. destruct (to_number va0) as [num|]; [|discriminate].
+  destruct (Nat.ltb 1 (length args)) eqn:E; [|apply Hf].
+  apply Nat.ltb_lt in E. apply with_arg_ok; [lia|]. intros va1. destruct (to_integer va1) as [places|]; [|discriminate].
+  destruct ((places <? 0) || (9 <? places)); [discriminate|apply Hf].
+Qed.
+
+Lemma date_from_parts_body_ok : forall a b c, date_from_parts_body a b c <> Panic.
+Proof. intros. unfold date_from_parts_body. destruct (_ || _); discriminate. Qed.
+
+Lemma time_from_parts_body_ok : forall a b c, time_from_parts_body a b c <> Panic.
+Proof. intros. unfold time_from_parts_body. repeat (destruct (_ || _); [discriminate|]). discriminate. Qed.
+
+Lemma datetime_add_fn_ok : forall args, datetime_add_fn args <> Panic.
+Proof.
+  intros args. unfold datetime_add_fn. destruct (Nat.eqb (length args) 3) eqn:E; simpl; [|discriminate].
+  apply Nat.eqb_eq in E.
+  apply with_arg_ok; [lia|]. intros va0. destruct (to_datetime va0); [|discriminate].
+  apply with_arg_ok; [lia|]. intros va1. destruct (to_integer va1); [|discriminate].
+  apply with_arg_ok; [lia|]. intros va2. destruct (to_text va2) as [u|]; [|discriminate].
+  destruct u as [|c [|c' u]]; try discriminate. destruct (existsb _ _); discriminate.
+Qed.
+
+Lemma array_fn_ok : forall args, array_fn args <> Panic.
+Proof. intros. unfold array_fn. destruct (find is_err args); discriminate. Qed.
+
+Lemma regex_match_body_ok : forall t r, (1 <= length r <= 2)%nat -> regex_match_body regex_submatch t r <> Panic.
+Proof.
+  intros t r Hr. unfold regex_match_body.
+  assert (Hf : forall pattern g, regex_match_finish regex_submatch t pattern g <> Panic).
+  { intros pattern g. unfold regex_match_finish. destruct (regex_submatch pattern t) as [groups|]; [|discriminate].
+    destruct ((g <? 0) || (zlen groups <=? g)) eqn:E; [discriminate|].
+    apply orb_false_iff in E as [E1 E2]. apply Z.ltb_ge in E1. apply Z.leb_gt in E2.
+    apply guarded_index; [lia|]. discriminate. }
+  apply with_arg_ok; [lia|]. intros va0. destruct (to_text va0) as [pattern|]; [|discriminate].
+  destruct (Nat.eqb (length r) 2) eqn:E; [|apply Hf].
+  apply Nat.eqb_eq in E. apply with_arg_ok; [lia|]. intros va1. destruct (to_integer va1); [apply Hf|discriminate].
+Qed.
+
+Lemma extract_object_body_ok : forall args, (2 <= length args)%nat -> extract_object_body args <> Panic.
+Proof.
+  intros args H. unfold extract_object_body.
+  apply with_arg_ok; [lia|]. intros va0. destruct (to_object va0); [|discriminate].
+  apply with_rest_ok; [lia|]. intros r _. destruct (texts_of r); discriminate.
+Qed.
+
+Lemma fold_extreme_ok : forall pick vs cur, fold_extreme pick vs cur <> Panic.
+Proof.
+  intros pick vs. induction vs as [|v r IH]; intros cur; simpl; [discriminate|].
+  destruct (to_number v); [apply IH|discriminate].
+Qed.
+
+Lemma extreme_body_ok : forall pick args, (1 <= length args)%nat -> extreme_body pick args <> Panic.
+Proof.
+  intros pick args H. unfold extreme_body.
+  apply with_arg_ok; [lia|]. intros v0. destruct (to_number v0); [|discriminate].
+  apply with_rest_ok; [lia|]. intros r _. apply fold_extreme_ok.
+Qed.
+
+Lemma has_group_loop_ok : forall fuel items i uuid,
+  0 <= i -> has_group_loop fuel items i uuid <> Panic.
+Proof.
+  induction fuel as [|fuel IH]; intros items i uuid Hi; simpl; [discriminate|].
+  destruct (i <? zlen items) eqn:E; simpl; [|discriminate]. apply Z.ltb_lt in E.
+  destruct (go_index_some items i) as [item ->]; [lia|].
+  destruct (to_object item) as [group|]; [|discriminate].
+  destruct (to_text _) as [u|]; [|discriminate].
+  destruct (text_eqb u uuid); [discriminate|]. apply IH. lia.
+Qed.
+
+Lemma has_group_loop_fuel : forall fuel items i uuid,
+  0 <= i -> (Z.to_nat (zlen items - i) < fuel)%nat -> has_group_loop fuel items i uuid <> NoFuel.
+Proof.
+  induction fuel as [|fuel IH]; intros items i uuid Hi Hf; [lia|]. simpl.
+  destruct (i <? zlen items) eqn:E; simpl; [|discriminate]. apply Z.ltb_lt in E.
+  destruct (go_index items i) as [item|]; [|discriminate].
+  destruct (to_object item) as [group|]; [|discriminate].
+  destruct (to_text _) as [u|]; [|discriminate].
+  destruct (text_eqb u uuid); [discriminate|]. apply IH; lia.
+Qed.
+
+Lemma has_group_body_ok : forall args, (2 <= length args <= 3)%nat -> has_group_body args <> Panic.
+Proof.
+  intros args H. unfold has_group_body.
+  apply with_arg_ok; [lia|]. intros va0. destruct (to_array va0) as [items|]; [|discriminate].
+  apply with_arg_ok; [lia|]. intros va1. destruct (to_text va1); [|discriminate].
+  apply has_group_loop_ok. lia.
+Qed.
+
+(* Object: pairs[i+1] is inside because the length is even *)
+Lemma object_pairs_ok : forall fuel pairs i acc,
+  Nat.even (length pairs) = true -> Nat.even i = true -> object_pairs fuel pairs i acc <> Panic.
+Proof.
+  induction fuel as [|fuel IH]; intros pairs i acc Hp Hi; simpl; [discriminate|].
+  destruct (Nat.leb (length pairs) i) eqn:E; [discriminate|]. apply Nat.leb_gt in E.
+  assert (Hi1 : (i + 1 < length pairs)%nat).
+  { destruct (Nat.eq_dec (i + 1) (length pairs)) as [Heq|Hne]; [|lia].
+    rewrite <- Heq in Hp. rewrite Nat.add_1_r, Nat.even_succ, <- Nat.negb_even, Hi in Hp. discriminate. }
+  apply with_arg_ok; [lia|]. intros key. apply with_arg_ok; [lia|]. intros val.
+  destruct (to_text key); [|discriminate]. apply IH; [assumption|].
+  replace (i + 2)%nat with (S (S i)) by lia. rewrite Nat.even_succ_succ. assumption.
+Qed.
+
+Lemma object_fn_ok : forall args, object_fn args <> Panic.
+Proof.
+  intros args. unfold object_fn. destruct (find is_err args); [discriminate|].
+  destruct (Nat.eqb (Nat.modulo (length args) 2) 0) eqn:E; simpl; [|discriminate].
+  apply object_pairs_ok; [|reflexivity].
+  apply Nat.eqb_eq in E. apply Nat.even_spec. exists (length args / 2)%nat.
+  pose proof (Nat.div_mod (length args) 2). lia.
 Qed.
 
 End WithExt.
